@@ -10,6 +10,7 @@ import (
 
 var engines = map[string]func([]string) int{
 	"schist": schist.Main,
+	"determ": schist.DetermMain,
 }
 
 func main() {
